@@ -142,11 +142,94 @@ func (f *Frame) call(v ssa.Value, c *ssa.CallCommon, in ssa.Instruction) {
 			}
 		}
 	}
+	// the func value is a case distinction (memory layers, branches) over known top-level
+	// functions: dispatch - each alternative under its condition, the rest as an unknown call
+	if ids := constLeaves(fv[0], 4); len(ids) > 0 && !f.spec {
+		ok := true
+		for _, id := range ids {
+			if fn := f.u.W.funcByID[id]; fn == nil || len(fn.FreeVars) != 0 {
+				ok = false
+			}
+		}
+		if ok {
+			base := f.cur
+			var conds []*Term
+			var states []BState
+			var results [][]*Term
+			var eqs []*Term
+			for _, id := range ids {
+				eq := tb.Eq(fv[0], tb.BV(fv[0].Sort.W, id))
+				eqs = append(eqs, eq)
+				f.cur = BState{reach: tb.And(base.reach, eq), mem: base.mem}
+				r := f.callFunc(f.u.W.funcByID[id], argVals(), nil, in, rt())
+				conds = append(conds, eq)
+				states = append(states, f.cur)
+				results = append(results, r)
+			}
+			f.cur = BState{reach: tb.And(base.reach, tb.Not(tb.Or(eqs...))), mem: base.mem}
+			f.nonNil(fv[0], "call", in.Pos())
+			f.u.note("dynamic call through func value havocs memory in " + f.fn.String() + " (alternative not among the known functions)")
+			f.havocAll("dynamic call")
+			rOther := f.freshResult("dyn", rt())
+			conds = append(conds, tb.True())
+			states = append(states, f.cur)
+			results = append(results, rOther)
+			var reaches []*Term
+			for _, st := range states {
+				reaches = append(reaches, st.reach)
+			}
+			f.cur = BState{reach: tb.Or(reaches...), mem: f.mergeMem(conds, states)}
+			res = results[len(results)-1]
+			for k := len(results) - 2; k >= 0; k-- {
+				if len(results[k]) != len(res) {
+					continue
+				}
+				n := make([]*Term, len(res))
+				for j := range res {
+					n[j] = tb.Ite(conds[k], results[k][j], res[j])
+				}
+				res = n
+			}
+			return
+		}
+	}
 	f.nonNil(fv[0], "call", in.Pos())
 	f.u.note("dynamic call through func value havocs memory in " + f.fn.String())
 	f.havocAll("dynamic call")
 	res = f.freshResult("dyn", rt())
 	_ = tb
+}
+
+// constLeaves: the distinct constants among the leaves of an ite-term (at most max; nil if the
+// term is a constant itself or has none).
+func constLeaves(t *Term, max int) []int64 {
+	if t.IsConst() {
+		return nil
+	}
+	seen := map[int64]bool{}
+	var out []int64
+	n := 0
+	var walk func(x *Term)
+	walk = func(x *Term) {
+		n++
+		if n > 256 {
+			return
+		}
+		if x.Op == "ite" {
+			walk(x.Args[1])
+			walk(x.Args[2])
+			return
+		}
+		if c, ok := x.ConstInt64(); ok && c != 0 && !seen[c] {
+			seen[c] = true
+			out = append(out, c)
+		}
+	}
+	walk(t)
+	if len(out) > max {
+		return nil
+	}
+	return out
 }
 
 func (f *Frame) makeClosure(x *ssa.MakeClosure) {
@@ -286,7 +369,8 @@ func (f *Frame) callFunc(fn *ssa.Function, args [][]*Term, bindings [][]*Term, i
 	// spec mode or no contract: inline when possible
 	if len(fn.Blocks) > 0 && f.depth < maxInlineDepth && f.inlinable(fn) {
 		sub := &Frame{u: f.u, fn: fn, vals: map[ssa.Value][]*Term{}, spec: f.spec, depth: f.depth + 1,
-			anchor: f.anchorFor(anchor), freeVars: bindings, frame: f.frame, inl: f.inl, loopFrames: f.activeLoopFrames()}
+			anchor: f.anchorFor(anchor), freeVars: bindings, frame: f.frame, inl: f.inl, loopFrames: f.activeLoopFrames(), entryMem: &MemState{}}
+		*sub.entryMem = f.cur.mem
 		if f.stub != nil {
 			sub.stub = &stubEval{old: f.stub.old, startCtr: f.stub.startCtr, oldLoads: map[ssa.Instruction]bool{}, oldCalls: map[ssa.Instruction]bool{}}
 		}
